@@ -536,6 +536,64 @@ func malform(r *Rng, v attr.Value, pct int) attr.Value {
 	return v
 }
 
+// malformAt applies exactly one malformation at the n-th site of the value tree (sites in a deterministic order:
+// every attribute of every object – deleted when del, else wrong-typed – and every element of every list / map –
+// wrong-typed). cnt counts the sites seen so far; call with n = -1 to count the sites.
+func malformAt(r *Rng, v attr.Value, cnt *int, n int, del bool) attr.Value {
+	hit := func() bool {
+		*cnt++
+		return *cnt-1 == n
+	}
+	switch x := v.(type) {
+	case types.Object:
+		if x.Attrs == nil {
+			return x
+		}
+		m := map[string]attr.Value{}
+		for _, k := range sortedAttrKeys(x.Attrs) {
+			y := x.Attrs[k]
+			if hit() {
+				if !del {
+					m[k] = wrongValue(r, y)
+				}
+				continue
+			}
+			m[k] = malformAt(r, y, cnt, n, del)
+		}
+		x.Attrs = m
+		return x
+	case types.List:
+		if x.Elems == nil {
+			return x
+		}
+		m := make([]attr.Value, len(x.Elems))
+		for i, y := range x.Elems {
+			if hit() {
+				m[i] = wrongValue(r, y)
+				continue
+			}
+			m[i] = malformAt(r, y, cnt, n, del)
+		}
+		x.Elems = m
+		return x
+	case types.Map:
+		if x.Elems == nil {
+			return x
+		}
+		m := map[string]attr.Value{}
+		for _, k := range sortedAttrKeys(x.Elems) {
+			if hit() {
+				m[k] = wrongValue(r, x.Elems[k])
+				continue
+			}
+			m[k] = malformAt(r, x.Elems[k], cnt, n, del)
+		}
+		x.Elems = m
+		return x
+	}
+	return v
+}
+
 // dropTypes removes attribute types at any object level of the type.
 func dropTypes(r *Rng, t attr.Type, pct int) attr.Type {
 	switch x := t.(type) {
@@ -646,6 +704,20 @@ func GenOps(e *Exec, args []string) {
 			// C06: malformed variants
 			emit(J{"op": "copyFrom", "type": t.Name, "tf": EncodeTf(malform(r, o, 15)), "prior": "zero", "tag": "from-malformed"})
 			emit(J{"op": "copyFrom", "type": t.Name, "tf": EncodeTf(malform(r, o, 40)), "prior": genGo(Mode{ZeroPct: 30}), "tag": "from-malformed"})
+		}
+		// C06: exactly one malformation per object, walking through the sites (attributes and elements at every depth)
+		if base, ok := genPlan(PlanMode{NullPct: 3, KeepObjects: true}); ok {
+			total := 0
+			malformAt(r, base, &total, -1, false)
+			budget := 14 * scale
+			step := 1
+			if total > budget {
+				step = total / budget
+			}
+			for site, k := r.Intn(step), 0; site < total && k < budget+2; site, k = site+step, k+1 {
+				c := 0
+				emit(J{"op": "copyFrom", "type": t.Name, "tf": EncodeTf(malformAt(r, base, &c, site, k%3 == 2)), "prior": "zero", "tag": "from-malformed", "grp": "site"})
+			}
 		}
 		// C07 / C05: oneof matrices – at every object level that holds a oneof group: each branch (or none) known,
 		// the others null or unknown, against an empty and a fully populated prior struct; and all leaves null under
